@@ -28,6 +28,8 @@ From BP Require Proofs.C04Def Model.C07Ops.
 From BP Require Import Proofs.C06SpecP Proofs.C06EncP Proofs.C06PresP Proofs.C06WaysP Proofs.C06FinalP Proofs.C06ZeroP.
 From BP Require Import Proofs.C06DictKwP Proofs.C06DictStateP Proofs.C06DictClsP Proofs.C06DictInstP Proofs.C06DictRecP Proofs.C06DictFinalP.
 From BP Require Import Proofs.C06DictOnceP Proofs.C06DictZeroP.
+From BP Require Import Model.C01Def Model.C06GapDefs Proofs.C06GapA Proofs.C06GapB Proofs.C06GapC.
+From BP Require Model.History Model.C01Reach Model.C01Parse Model.C17Typed Model.C17Nested Proofs.C17NestedAcceptP.
 
 (* bytes(m) is the concatenation of one contribution per field, in declaration order, then the unknown bytes;
    [here sc cur i x f] is the contribution of field i holding raw value x *)
@@ -805,3 +807,303 @@ Example C06_setattrs_nonvacuous :
   in_group (get_class ex_schema 11) 0 4 = false /\
   which_one_of m 0 = Some 2%nat /\ enc_obj ex_schema m = Ok [x10; x00; x1a; x00; x2a; x00].
 Proof. cbv zeta. vm_compute. repeat split. Qed.
+
+(* ================================================================================================================== *)
+(* Gap closing against the property text (clause-by-clause table: top of Proofs/C06GapA.v).                           *)
+(* ================================================================================================================== *)
+
+(* ---- (5a) "for the same bytes": the record list is determined by the bytes, and the executable reader (the one the harness
+        compares with google.protobuf) finds it whenever the grammar has one: HasField / WhichOneof are functions of the bytes ---- *)
+Theorem C06_spec_reader_complete : forall bs rs, is_records rs bs -> parse_records bs = Some rs.
+Proof. exact parse_records_complete. Qed.
+Print Assumptions C06_spec_reader_complete.
+
+Theorem C06_spec_reader_iff : forall bs rs, is_records rs bs <-> parse_records bs = Some rs.
+Proof. exact records_iff. Qed.
+Print Assumptions C06_spec_reader_iff.
+
+Theorem C06_records_unique : forall bs rs rs', is_records rs bs -> is_records rs' bs -> rs = rs'.
+Proof. exact is_records_unique. Qed.
+Print Assumptions C06_records_unique.
+
+Theorem C06_presence_of_bytes_well_defined : forall bs rs rs',
+  is_records rs bs -> is_records rs' bs ->
+  (forall f, has_record f rs = has_record f rs') /\ (forall cd g, last_member cd g rs = last_member cd g rs').
+Proof. exact presence_of_bytes_well_defined. Qed.
+Print Assumptions C06_presence_of_bytes_well_defined.
+
+(* "in combination with other fields", on the reference side: whatever complete records precede and follow, a record of
+   the field is seen *)
+Theorem C06_has_field_combination : forall f a b c rsa rsb rsc,
+  is_records rsa a -> is_records rsb b -> is_records rsc c -> has_record f rsb = true ->
+  has_field_bytes f (a ++ b ++ c) = Some true.
+Proof. exact has_record_combination. Qed.
+Print Assumptions C06_has_field_combination.
+
+(* ---- (1a) the constructor call Cls() itself ---- *)
+Theorem C06_fresh_constructor : forall sc c,
+  wf_schema sc = true ->
+  construct sc c [] = new sc c /\
+  enc_obj sc (construct sc c []) = Ok [] /\
+  (forall i f, nth_error (cfields (get_class sc c)) i = Some f -> read sc (construct sc c []) i = proto3_default sc f) /\
+  osow (construct sc c []) = false /\
+  (forall g, which_one_of (construct sc c []) g = None) /\
+  (forall i, is_set sc (construct sc c []) i = false) /\
+  (forall i, child_on_wire (construct sc c []) i = false).
+Proof. exact fresh_constructor. Qed.
+Print Assumptions C06_fresh_constructor.
+
+(* (1b) no converse: zero bytes do not identify a fresh message (an implicit field SET to its default, flag raised) *)
+Theorem C06_fresh_bytes_not_injective_refuted :
+  exists o, enc_obj k12_schema o = Ok [] /\ o <> new k12_schema 11 /\ osow o = true /\ is_set k12_schema o 0 = true.
+Proof. exact fresh_bytes_not_injective_witness. Qed.
+Print Assumptions C06_fresh_bytes_not_injective_refuted.
+
+(* ---- (2a) implicit presence with its converse: a value of an implicit-presence field is skipped EXACTLY when it is the
+        default; otherwise the contribution starts with the field's tag.  implicit_exact_kind: every varint / fixed-width
+        kind, str, bytes.  Missing for the full clause: the Timestamp / Duration value types (a non-epoch datetime has a
+        non-empty payload: needs the time encoder), for which C06_implicit_nondefault_emit gives tag-or-empty. ---- *)
+Theorem C06_implicit_emit_iff_partial : forall sc cur i x f h,
+  1 <= fnum f < 2 ^ 29 -> fmap f = None -> implicit_field f -> implicit_exact_kind f ->
+  is_value x -> singular_value x ->
+  here sc cur i x f = Ok h ->
+  (h = [] <-> is_default sc f x = true) /\
+  (is_default sc f x = false -> starts_with_tag (fnum f) (base_wire_type (fty f)) h).
+Proof. exact implicit_emit_iff_partial. Qed.
+Print Assumptions C06_implicit_emit_iff_partial.
+
+Theorem C06_implicit_nondefault_emit : forall sc cur i x f h,
+  1 <= fnum f < 2 ^ 29 -> fmap f = None -> implicit_field f ->
+  is_value x -> singular_value x -> is_default sc f x = false ->
+  here sc cur i x f = Ok h ->
+  starts_with_tag (fnum f) (base_wire_type (fty f)) h \/ (h = [] /\ base_wire_type (fty f) = 2).
+Proof. exact implicit_nondefault_emit. Qed.
+Print Assumptions C06_implicit_nondefault_emit.
+
+(* ---- (3a) explicit presence with its converse, in any object state: never set (None / PLACEHOLDER) or displaced by
+        another member of its group: no bytes; the contribution is non-empty EXACTLY when the attribute holds a value and
+        (oneof member) the group selects it ---- *)
+Theorem C06_explicit_unset_silent : forall sc c cur i x f,
+  wf_schema sc = true -> nth_error (cfields (get_class sc c)) i = Some f -> explicit_field f ->
+  (x = PNone \/ (x = PPlaceholder /\ group_selects cur f i <> Some true) \/ group_selects cur f i = Some false) ->
+  here sc cur i x f = Ok [].
+Proof. exact explicit_unset_silent. Qed.
+Print Assumptions C06_explicit_unset_silent.
+
+Theorem C06_explicit_emit_iff : forall sc c cur i x f h,
+  wf_schema sc = true -> nth_error (cfields (get_class sc c)) i = Some f -> explicit_field f ->
+  1 <= fnum f < 2 ^ 29 -> fmap f = None -> singular_value x ->
+  (x = PPlaceholder -> group_selects cur f i <> Some true) ->
+  here sc cur i x f = Ok h ->
+  (h <> [] <-> (is_value x /\ group_selects cur f i <> Some false)) /\
+  (h <> [] -> starts_with_tag (fnum f) (base_wire_type (fty f)) h).
+Proof. exact explicit_emit_iff. Qed.
+Print Assumptions C06_explicit_emit_iff.
+
+(* the PLACEHOLDER side condition is exact: a selection that names a member holding nothing emits the member's default *)
+Theorem C06_explicit_emit_iff_placeholder_refuted :
+  exists sc cur f, wf_schema sc = true /\ nth_error (cfields (get_class sc 11)) 0 = Some f /\ explicit_field f /\
+    here sc cur 0 PPlaceholder f = Ok [x0a; x00].
+Proof. exact explicit_emit_iff_placeholder_witness. Qed.
+Print Assumptions C06_explicit_emit_iff_placeholder_refuted.
+
+(* ---- (4a) the "flag consistent" hypothesis of C06_submessage follows from C01's decidable sow_ok (which C01 proves for
+        every object a history of public operations produces: C06_submessage_reachable below); (4b) the K12 object is an
+        object without sow_ok, the direct-child assignment has it ---- *)
+Theorem C06_sow_ok_flag_consistent : forall sc o i f ch,
+  sow_ok sc o = true ->
+  nth_error (cfields (get_class sc (ocls o))) i = Some f -> nth_error (oraw o) i = Some (PMsg ch) ->
+  plain_msg f ->
+  osow ch = false -> is_default sc f (PMsg ch) = true.
+Proof. exact sow_ok_flag_consistent. Qed.
+Print Assumptions C06_sow_ok_flag_consistent.
+
+Theorem C06_submessage_sow_ok : forall sc o i f ch all,
+  wf_schema sc = true -> sow_ok sc o = true ->
+  nth_error (cfields (get_class sc (ocls o))) i = Some f -> nth_error (oraw o) i = Some (PMsg ch) ->
+  plain_msg f -> enc_obj sc o = Ok all ->
+  exists pre h post, all = pre ++ h ++ post /\ here sc (ocur o) i (PMsg ch) f = Ok h /\
+    (h <> [] <-> osow ch = true) /\ (osow ch = true -> starts_with_tag (fnum f) 2 h).
+Proof. exact submessage_sow_ok. Qed.
+Print Assumptions C06_submessage_sow_ok.
+
+Theorem C06_lazy_path_not_sow_ok_refuted :
+  (exists m, k12_after 5 = Ok m /\ sow_ok k12_schema m = false) /\
+  (exists m, assign_path k12_schema (new k12_schema 11) [1%nat] 0 (PInt 5) = Ok m /\ sow_ok k12_schema m = true).
+Proof. exact k12_not_sow_ok_witness. Qed.
+Print Assumptions C06_lazy_path_not_sow_ok_refuted.
+
+(* ---- non-vacuity of the gap theorems (ex_schema: x implicit, o optional, a / b oneof g0, w Int32Value, s message) ---- *)
+Example C06_gap_records_nonvacuous :
+  exists rs, is_records rs ex_bytes /\ parse_records ex_bytes = Some rs /\ length rs = 5%nat /\
+    map (fun f => has_field_bytes f ex_bytes) (cfields (get_class ex_schema 11)) =
+      [Some false; Some true; Some true; Some true; Some true; Some true] /\
+    which_oneof_bytes (get_class ex_schema 11) 0 ex_bytes = Some (Some 3%nat) /\
+    has_field_bytes (nth 1 (cfields (get_class ex_schema 11)) (plain_field [] 0 TBool)) [x10] = None.
+Proof.
+  exists [mkR 2 0 0 []; mkR 3 2 0 []; mkR 4 0 0 []; mkR 5 2 0 []; mkR 6 2 0 []].
+  split; [apply parse_records_sound; vm_compute; reflexivity|]. vm_compute. repeat split.
+Qed.
+
+Example C06_gap_state_nonvacuous :
+  let fs := cfields (get_class ex_schema 11) in
+  let d := plain_field [] 0 TBool in
+  implicit_field (nth 0 fs d) /\ implicit_exact_kind (nth 0 fs d) /\
+  is_default ex_schema (nth 0 fs d) (PInt 5) = false /\ here ex_schema [None] 0 (PInt 5) (nth 0 fs d) = Ok [x08; x05] /\
+  here ex_schema [None] 0 (PInt 0) (nth 0 fs d) = Ok [] /\
+  explicit_field (nth 1 fs d) /\ here ex_schema [None] 1 (PInt 0) (nth 1 fs d) = Ok [x10; x00] /\
+  here ex_schema [None] 1 PNone (nth 1 fs d) = Ok [] /\
+  (* a displaced oneof member that still holds a value contributes nothing; the selected one does *)
+  explicit_field (nth 2 fs d) /\ group_selects [Some 3%nat] (nth 2 fs d) 2 = Some false /\
+  here ex_schema [Some 3%nat] 2 (PStr []) (nth 2 fs d) = Ok [] /\
+  here ex_schema [Some 2%nat] 2 (PStr []) (nth 2 fs d) = Ok [x1a; x00].
+Proof.
+  cbv zeta. split; [split; [reflexivity|]; split; [reflexivity|]; exists PyInt; split; [reflexivity|discriminate]|].
+  split; [left; vm_compute; discriminate|].
+  split; [reflexivity|]. split; [vm_compute; reflexivity|]. split; [vm_compute; reflexivity|].
+  split; [left; split; [reflexivity|left; reflexivity]|]. split; [vm_compute; reflexivity|]. split; [vm_compute; reflexivity|].
+  split; [right; exists 0%nat; reflexivity|]. split; [vm_compute; reflexivity|]. split; vm_compute; reflexivity.
+Qed.
+
+(* an object with sow_ok whose sub-message child was assigned: flag up, emitted; a fresh one: flag down, child not held *)
+Example C06_gap_sow_ok_nonvacuous :
+  let o := setattr ex_schema (new ex_schema 11) 5 (PMsg (setattr ex_schema (new ex_schema 11) 1 (PInt 0))) in
+  sow_ok ex_schema o = true /\ plain_msg (nth 5 (cfields (get_class ex_schema 11)) (plain_field [] 0 TBool)) /\
+  (exists ch, nth_error (oraw o) 5 = Some (PMsg ch) /\ osow ch = true) /\
+  enc_obj ex_schema o = Ok [x32; x02; x10; x00].
+Proof.
+  cbv zeta. split; [vm_compute; reflexivity|]. split; [split; [repeat split|exists 11%nat; reflexivity]|].
+  split; [eexists; split; vm_compute; reflexivity|vm_compute; reflexivity].
+Qed.
+
+(* ---- (5b) composition with C17's acceptance criterion: for EVERY valid byte string (Model/C17Nested.v [valid], which
+        C17_accept_iff proves is exactly the set parse accepts) parse returns an object, its flag is up, and the three
+        presence reports equal the reference's; on an invalid string there is no decoded object to speak about ---- *)
+Theorem C06_decode_presence_valid : forall sc c bs rs,
+  wf_schema sc = true -> C17Typed.has_builtins sc -> C17Typed.entries_agree sc = true -> std_builtins_b sc = true ->
+  C17Nested.valid sc c bs -> is_records rs bs ->
+  exists m, parse sc c bs = Ok m /\ osow m = true /\
+    (forall j f, nth_error (cfields (get_class sc c)) j = Some f -> optional_like f ->
+       value_not_none sc m j = has_record f rs /\ (fopt f = true -> is_set sc m j = has_record f rs)) /\
+    (forall g, which_one_of m g = last_member (get_class sc c) g rs) /\
+    (forall j f, nth_error (cfields (get_class sc c)) j = Some f -> plain_msg f -> child_on_wire m j = has_record f rs).
+Proof. exact decode_presence_valid. Qed.
+Print Assumptions C06_decode_presence_valid.
+
+Theorem C06_decode_invalid_no_object : forall sc c bs,
+  wf_schema sc = true -> C17Typed.has_builtins sc -> C17Typed.entries_agree sc = true ->
+  ~ C17Nested.valid sc c bs -> forall m, parse sc c bs <> Ok m.
+Proof. exact decode_invalid_no_object. Qed.
+Print Assumptions C06_decode_invalid_no_object.
+
+(* ---- (5c) "recovered", composition with C01_roundtrip: for a message satisfying C01's decidable value conditions, the
+        decoded message reports the presence the original reported (not-None-ness and readability of every attribute,
+        which_one_of of every group, serialized_on_wire of every readable message attribute) and re-encodes to the same bytes ---- *)
+Theorem C06_roundtrip_presence : forall sc m bs,
+  c01_schema_ok sc = true -> c01_value_ok sc m = true -> sow_ok sc m = true ->
+  enc_obj sc m = Ok bs -> Zlength bs < 2 ^ 64 ->
+  exists m', parse sc (ocls m) bs = Ok m' /\ enc_obj sc m' = Ok bs /\
+    (forall g, which_one_of m' g = which_one_of m g) /\
+    (forall i, (i < length (oraw m))%nat ->
+       value_not_none sc m' i = value_not_none sc m i /\
+       res_ok (read sc m' i) = res_ok (read sc m i) /\
+       res_flag (read sc m' i) = res_flag (read sc m i)) /\
+    (forall i f, (i < length (oraw m))%nat -> nth_error (cfields (get_class sc (ocls m))) i = Some f -> plain_msg f ->
+       child_on_wire m' i = child_on_wire m i).
+Proof. exact roundtrip_presence. Qed.
+Print Assumptions C06_roundtrip_presence.
+
+(* ---- clauses (3) and (4) judged ON THE BYTES by the reference: what HasField / WhichOneof report on bytes(m) is what m
+        itself reports - an optional / wrapper field has a record iff it is not None (set, even to its default: emitted;
+        never set: NOT emitted), the oneof member whose record comes last is the one which_one_of names (no displaced
+        member is emitted after it), a plain sub-message has a record EXACTLY when serialized_on_wire(m.f) ---- *)
+Theorem C06_encode_presence : forall sc m bs rs,
+  c01_schema_ok sc = true -> std_builtins_b sc = true ->
+  c01_value_ok sc m = true -> sow_ok sc m = true ->
+  enc_obj sc m = Ok bs -> Zlength bs < 2 ^ 64 -> is_records rs bs ->
+  (forall j f, (j < length (oraw m))%nat -> nth_error (cfields (get_class sc (ocls m))) j = Some f -> optional_like f ->
+     value_not_none sc m j = has_record f rs) /\
+  (forall g, which_one_of m g = last_member (get_class sc (ocls m)) g rs) /\
+  (forall j f, (j < length (oraw m))%nat -> nth_error (cfields (get_class sc (ocls m))) j = Some f -> plain_msg f ->
+     child_on_wire m j = has_record f rs).
+Proof. exact encode_presence. Qed.
+Print Assumptions C06_encode_presence.
+
+(* ---- (3b) (4a) (6) the value conditions hold for every object a HISTORY of public operations produces (C07's alphabet
+        run7: constructor calls, attribute assignments - direct or inside a child -, parse into the object, both from_dict
+        forms, reads, copies, in any interleaving) under C01's decidable operation-level condition op_reach_ok_p
+        (C01_reachable_sow_ok_parse); K12 histories are the ones it excludes (C06_lazy_path_not_sow_ok_refuted) ---- *)
+Theorem C06_submessage_reachable : forall sc c ops o i f ch all,
+  c01_schema_ok sc = true -> C01Reach.hist_ok C01Parse.op_reach_ok_p sc (new sc c) ops = true ->
+  C07Ops.run7 sc (new sc c) ops = Ok o ->
+  nth_error (cfields (get_class sc (ocls o))) i = Some f -> nth_error (oraw o) i = Some (PMsg ch) ->
+  plain_msg f -> enc_obj sc o = Ok all ->
+  exists pre h post, all = pre ++ h ++ post /\ here sc (ocur o) i (PMsg ch) f = Ok h /\
+    (h <> [] <-> osow ch = true) /\ (osow ch = true -> starts_with_tag (fnum f) 2 h).
+Proof. exact submessage_reachable. Qed.
+Print Assumptions C06_submessage_reachable.
+
+Theorem C06_encode_presence_reachable : forall sc c ops m bs rs,
+  c01_schema_ok sc = true -> std_builtins_b sc = true ->
+  C01Reach.hist_ok C01Parse.op_reach_ok_p sc (new sc c) ops = true -> C07Ops.run7 sc (new sc c) ops = Ok m ->
+  enc_obj sc m = Ok bs -> Zlength bs < 2 ^ 64 -> is_records rs bs ->
+  (forall j f, (j < length (oraw m))%nat -> nth_error (cfields (get_class sc (ocls m))) j = Some f -> optional_like f ->
+     value_not_none sc m j = has_record f rs) /\
+  (forall g, which_one_of m g = last_member (get_class sc (ocls m)) g rs) /\
+  (forall j f, (j < length (oraw m))%nat -> nth_error (cfields (get_class sc (ocls m))) j = Some f -> plain_msg f ->
+     child_on_wire m j = has_record f rs).
+Proof. exact encode_presence_reachable. Qed.
+Print Assumptions C06_encode_presence_reachable.
+
+Theorem C06_roundtrip_presence_reachable : forall sc c ops m bs,
+  c01_schema_ok sc = true ->
+  C01Reach.hist_ok C01Parse.op_reach_ok_p sc (new sc c) ops = true -> C07Ops.run7 sc (new sc c) ops = Ok m ->
+  enc_obj sc m = Ok bs -> Zlength bs < 2 ^ 64 ->
+  exists m', parse sc (ocls m) bs = Ok m' /\ enc_obj sc m' = Ok bs /\
+    (forall g, which_one_of m' g = which_one_of m g) /\
+    (forall i, (i < length (oraw m))%nat ->
+       value_not_none sc m' i = value_not_none sc m i /\
+       res_ok (read sc m' i) = res_ok (read sc m i) /\
+       res_flag (read sc m' i) = res_flag (read sc m i)) /\
+    (forall i f, (i < length (oraw m))%nat -> nth_error (cfields (get_class sc (ocls m))) i = Some f -> plain_msg f ->
+       child_on_wire m' i = child_on_wire m i).
+Proof. exact roundtrip_presence_reachable. Qed.
+Print Assumptions C06_roundtrip_presence_reachable.
+
+(* ---- non-vacuity of the compositions ---- *)
+Example C06_gap_valid_nonvacuous :
+  C17Typed.has_builtins ex_schema /\ C17Typed.entries_agree ex_schema = true /\ c01_schema_ok ex_schema = true /\
+  C17Nested.valid ex_schema 11 ex_bytes /\ ~ C17Nested.valid ex_schema 11 [x10].
+Proof.
+  assert (Hb : C17Typed.has_builtins ex_schema) by (eexists; reflexivity).
+  assert (He : C17Typed.entries_agree ex_schema = true) by (vm_compute; reflexivity).
+  assert (W : wf_schema ex_schema = true) by (vm_compute; reflexivity).
+  split; [exact Hb|]. split; [exact He|]. split; [vm_compute; reflexivity|]. split.
+  - apply (C17NestedAcceptP.accept_iff ex_schema W Hb He). eexists. vm_compute. reflexivity.
+  - intros V. apply (C17NestedAcceptP.accept_iff ex_schema W Hb He) in V. destruct V as (m & P). vm_compute in P. discriminate.
+Qed.
+
+(* a history mixing the four ways, every value a DEFAULT: Cls(o = 0); m.b = 0; m.s.o = 0 (assigned inside the direct
+   child); m.parse(2a 00) (w received, empty); m.from_dict({"x": 0}); read m.x.  The bytes are o, b, w, s - each with its
+   zero payload -, x is skipped, and the reference reads exactly those four as present *)
+Definition ex_gap_hist : list C07Ops.op7 :=
+  [C07Ops.OConstruct [(1%nat, PInt 0)]; C07Ops.OBase (History.OSet [] 3 (PInt 0));
+   C07Ops.OBase (History.OSet [5%nat] 1 (PInt 0)); C07Ops.OBase (History.OParse [x2a; x00]);
+   C07Ops.OFromDictInst [(0%nat, PInt 0)]; C07Ops.OBase (History.OGet [] 0)].
+Definition ex_gap_bytes : list byte := [x10; x00; x20; x00; x2a; x00; x32; x02; x10; x00].
+
+Example C06_gap_reachable_nonvacuous :
+  C01Reach.hist_ok C01Parse.op_reach_ok_p ex_schema (new ex_schema 11) ex_gap_hist = true /\
+  exists m rs, C07Ops.run7 ex_schema (new ex_schema 11) ex_gap_hist = Ok m /\
+    enc_obj ex_schema m = Ok ex_gap_bytes /\ Zlength ex_gap_bytes < 2 ^ 64 /\ is_records rs ex_gap_bytes /\
+    c01_value_ok ex_schema m = true /\ sow_ok ex_schema m = true /\ length (oraw m) = 6%nat /\
+    map (value_not_none ex_schema m) [1; 4]%nat = [true; true] /\ which_one_of m 0 = Some 3%nat /\
+    child_on_wire m 5 = true /\
+    map (fun f => has_record f rs) (cfields (get_class ex_schema 11)) = [false; true; false; true; true; true] /\
+    last_member (get_class ex_schema 11) 0 rs = Some 3%nat.
+Proof.
+  split; [vm_compute; reflexivity|]. eexists.
+  exists [mkR 2 0 0 []; mkR 4 0 0 []; mkR 5 2 0 []; mkR 6 2 0 [x10; x00]].
+  split; [vm_compute; reflexivity|]. split; [vm_compute; reflexivity|]. split; [vm_compute; reflexivity|].
+  split; [apply parse_records_sound; vm_compute; reflexivity|]. vm_compute. repeat split.
+Qed.
